@@ -21,7 +21,8 @@ SPEC_FUNCS = {
     "int_of_str", "str_is_int", "ceil_div", "app", "callable_", "attr",
     "log_pos", "yielded", "exists_event", "all_events", "isinstance_",
     "truthy", "mem", "count_held", "seq", "select", "glob0", "obj", "strip",
-    "split", "join", "cfg", "reaches", "no_event_between", "log_len",
+    "split", "join", "cfg", "reaches", "no_event_between", "log_len", "the",
+    "split_ws",
 }
 
 
@@ -121,8 +122,12 @@ class SpecMixin:
 
     # ------------------------------------------------------------------
     def ev_Call(self, node, st):
-        if self.spec and isinstance(node.func, ast.Name) and node.func.id in SPEC_FUNCS:
-            return [self.val(st, self.spec_call(node.func.id, node, st))]
+        if self.spec and isinstance(node.func, ast.Name):
+            if node.func.id in self.schema.spec_funcs:
+                vals = [self._one(self.ev(x, st)) for x in node.args]
+                return [self.val(st, self.schema.spec_funcs[node.func.id](self, st, *vals))]
+            if node.func.id in SPEC_FUNCS:
+                return [self.val(st, self.spec_call(node.func.id, node, st))]
         return super().ev_Call(node, st)
 
     def ev_Attribute(self, node, st):
@@ -183,7 +188,10 @@ class SpecMixin:
         if name == "at_entry":
             return self._in_state(ctl.entry, a[0], st)
         if name == "implies":
-            return VBool(z3.Implies(self.truth(val(a[0]), st), self.truth(val(a[1]), st)))
+            ant = z3.simplify(self.truth(val(a[0]), st))
+            if z3.is_false(ant):
+                return VBool(True)      # lazy: the consequent may be ill-kinded
+            return VBool(z3.Implies(ant, self.truth(val(a[1]), st)))
         if name == "iff":
             return VBool(self.truth(val(a[0]), st) == self.truth(val(a[1]), st))
         if name == "ite":
@@ -209,6 +217,12 @@ class SpecMixin:
         if name == "dom_eq":
             m1, m2 = val(a[0]), val(a[1])
             return VBool(m1.t == m2.t) if isinstance(m1, VArr) else VBool(st.map_dom(m1) == st.map_dom(m2))
+        if name == "the":
+            v = val(a[0])
+            return v.inner if isinstance(v, VOpt) else v
+        if name == "split_ws":
+            f = z3.Function("py_split_ws", ty.StrS, z3.SeqSort(ty.StrS))
+            return VSeq(f(val(a[0]).t), ty.Str)
         if name == "is_none":
             return VBool(self.eq(val(a[0]), NONE, st))
         if name == "is_int":
@@ -445,42 +459,55 @@ class VerifyMixin:
         n_paths = 0
         exits = []
         for s, env in entries:
-            fr = s.frame
-            fr.vars.update(env)
-            fr.local_names = assigned_names(fnode.body) | set(env)
-            qual = key.split(":")[1]
-            if "." in qual and "<locals>" not in qual:
-                fr.cls = self.schema.src_class.get((mi.name, qual.rsplit(".", 1)[0]))
-            else:
-                fr.cls = getattr(c, "in_class", None)
-            fr.self_name = src_names[0] if src_names else None
-            spec_env = dict(env)
-            for nm, expr in c.lets:
-                spec_env[nm] = self.spec_value(expr, s, spec_env)
-            for label, expr in c.requires_:
-                s.assume(self.spec_eval(expr, s, spec_env, mode="hyp"))
-            for lk in c.entry_held:
-                s.held.append(self.spec_value(lk, s, spec_env).t)
-            if not self.feasible(s):
-                continue
-            old = s.clone()
-            self.ctl = Ctl(old=old)
-            self.ctl.log_start = len(s.log)
-            if getattr(c, "generator", False):
-                s.gen_out = []
-            hooks = []
-            for label, expr, prop in getattr(c, "at_user_call_", []):
-                hooks.append(self._mk_user_hook(key, label, expr, prop, spec_env, old))
-            self.user_call_hooks = hooks
-            outs = self.exec_block(fnode.body, s)
-            self.user_call_hooks = []
-            for o in outs:
-                n_paths += 1
-                self.check_exit(c, key, o, spec_env, old, exits)
+            states = [s]
+            for gname in getattr(c, "touch_", []):
+                nxt2 = []
+                for s_ in states:
+                    nxt2 += [x[0] for x in self.glob_value(s_, mi.name, gname)]
+                states = nxt2
+            for s_ in states:
+                n_paths += self._verify_entry(c, key, mi, fnode, s_, env, src_names, exits)
         self.paths = n_paths
         # vacuity guards
         self.vacuity(c, key, n_paths, exits)
         return self.results[n_before:]
+
+    def _verify_entry(self, c, key, mi, fnode, s, env, src_names, exits):
+        fr = s.frame
+        fr.vars.update(env)
+        fr.local_names = assigned_names(fnode.body) | set(env)
+        qual = key.split(":")[1]
+        if "." in qual and "<locals>" not in qual:
+            fr.cls = self.schema.src_class.get((mi.name, qual.rsplit(".", 1)[0]))
+        else:
+            fr.cls = getattr(c, "in_class", None)
+        fr.self_name = src_names[0] if src_names else None
+        spec_env = dict(env)
+        for nm, expr in c.lets:
+            spec_env[nm] = self.spec_value(expr, s, spec_env)
+        for label, expr in c.requires_:
+            s.assume(self.spec_eval(expr, s, spec_env, mode="hyp"))
+        for lk in c.entry_held:
+            s.held.append(self.spec_value(lk, s, spec_env).t)
+        if not self.feasible(s):
+            return 0
+        old = s.clone()
+        self.ctl = Ctl(old=old)
+        self.ctl.log_start = len(s.log)
+        self.cur_env = spec_env
+        if getattr(c, "generator", False):
+            s.gen_out = []
+        hooks = []
+        for label, expr, prop in getattr(c, "at_user_call_", []):
+            hooks.append(self._mk_user_hook(key, label, expr, prop, spec_env, old))
+        self.user_call_hooks = hooks
+        outs = self.exec_block(fnode.body, s)
+        self.user_call_hooks = []
+        n = 0
+        for o in outs:
+            n += 1
+            self.check_exit(c, key, o, spec_env, old, exits)
+        return n
 
     def _mk_user_hook(self, key, label, expr, prop, env, old):
         def hook(engine, fn, args, kwargs, st, node):
@@ -495,12 +522,14 @@ class VerifyMixin:
         kind, s, v = o
         self.ctl = Ctl(old=old)
         self.ctl.log_start = len(old.log)
+        self.cur_env = env
         if kind in ("brk", "cont"):
             raise EngineError(f"{kind} escaped function {key}")
         if kind in ("next", "ret"):
             res = v if kind == "ret" else NONE
             e2 = dict(env)
             e2["result"] = res
+            self.cur_env = e2
             for label, expr, prop in c.ensures_:
                 g = self.spec_eval(expr, s, e2, old=old)
                 self.prove(s, g, f"{key}:post/{label}", prop=self.prop_of(prop))
